@@ -225,7 +225,7 @@ func R20(p *core.Prog) *core.Result {
 			return false
 		}
 		n := namedOf(ta.AssertedType)
-		return n != nil && n.Obj().Name() == "Folder"
+		return n != nil && core.TypeName(n) == "Folder"
 	})
 	find("named-type conversion (getFoldConvert)", func(in ssa.Instruction) bool {
 		c, ok := in.(*ssa.Call)
@@ -458,7 +458,7 @@ func nameAgree(p *core.Prog, r *core.Result, fnName string) {
 				}
 			case *ssa.MapUpdate:
 				if mt, ok := x.Map.Type().Underlying().(*types.Map); ok {
-					if n := namedOf(mt.Elem()); n != nil && n.Obj().Name() == "fieldUnfolder" {
+					if n := namedOf(mt.Elem()); n != nil && core.TypeName(n) == "fieldUnfolder" {
 						// only the non-inline insertion (key is not a range variable of a sub map)
 						if _, isNext := x.Key.(*ssa.Extract); !isNext {
 							sinks = append(sinks, x.Key)
